@@ -146,3 +146,41 @@ def frame_obligations(run, prop, rule, repo, quals):
 
 def orth_of(core):
     return core.tags.get('orth') if isinstance(core, Arr) else None
+
+
+def _is_singular_values(v):
+    p = v.tags.get('prov') if isinstance(v, Arr) else None
+    return isinstance(p, dict) and p.get('role') == 's' and 'svd' in p
+
+
+def relative_cut_obligations(run, prop, rule, repo, sc, scen, mods=None):
+    """every threshold test on singular values must be the relative cut  s / s[0] > threshold  (the absolute variant only inside
+    utils.truncated_svd when rel_truncation is False)"""
+    n = 0
+    for e in sc.events('where'):
+        cond = e['cond']
+        ex = cond.tags.get('expr') if isinstance(cond, Arr) else None
+        if not ex or ex[0] not in ('gt', 'ge', 'lt', 'le'):
+            continue
+        l, r = ex[1]
+        if ex[0] in ('lt', 'le'):
+            l, r = r, l
+        ok, touches = None, False
+        if isinstance(l, Arr) and _is_singular_values(l):
+            touches, ok = True, False                       # absolute cut  s > threshold
+            if e.get('fn') is not None and e['fn'].qual == 'utils.truncated_svd' and e.get('env', {}).get('rel_truncation') is False:
+                ok = True
+        elif isinstance(l, Arr) and l.tags.get('expr') and l.tags['expr'][0] == 'truediv':
+            num, den = l.tags['expr'][1]
+            if isinstance(num, Arr) and _is_singular_values(num):
+                touches = True
+                so = den.tags.get('sel_of') if isinstance(den, Arr) else None
+                ok = bool(so and so[0] is num and so[1] == (('int', 0),))
+        if not touches:
+            continue
+        n += 1
+        where, cons, f, ln = ev_where(repo, e, mods)
+        run.oblige(rule, (where, cons, 'relative cut'), ok)
+        if not ok:
+            run.add(Finding(prop, rule, where, cons, f'{scen}: singular values are cut by an absolute test (or not relative to the largest one) instead of s / s[0] > threshold', f, ln))
+    return n
